@@ -41,6 +41,8 @@ PROFILES = {
     "grumpy-add": st.one_of(K, K, K, GR("add")),
     "inexact": st.one_of(INEXACT_FLOATS, INEXACT_FLOATS, st.integers(-2, 5).map(lambda n: ["i", n])),
     "item": K,
+    # a class with only __lt__ plus functools.total_ordering and identity equality (ties: a > b and b > a)
+    "ltonly": st.integers(0, 3).map(lambda k: ("LT", k)),
     # mixed truthiness; occasionally a data item that is itself awaitable (must never be awaited)
     "truthy": st.one_of(K, K, TRUTHY_PRIMS, TRUTHY_PRIMS, TRUTHY_PRIMS, st.just(("AW",))),
     "num": st.one_of(NUM_PRIMS, NUM_PRIMS, NUM_PRIMS, K,
@@ -83,6 +85,9 @@ class Uids:
         if isinstance(v, tuple) and v and v[0] == "ACC":
             self.n += 1
             return ["A", v[1], self.n - 1]
+        if isinstance(v, tuple) and v and v[0] == "LT":
+            self.n += 1
+            return ["L", v[1], self.n - 1]
         if isinstance(v, tuple) and v and v[0] == "EQ":
             self.n += 1
             return ["E", self.n - 1]
@@ -315,6 +320,11 @@ def base_case(draw, name, max_len=8, max_src=4, steps="full", min_len=0, min_src
             v["initial"] = draw(st.sampled_from([["i", 0], ["i", 5], ["l", []], ["f", 0.5]]))
     elif name in ("nlargest", "nsmallest"):
         params["n"] = draw(st.integers(-1, longest + 2)) if longest < 10 else draw(st.integers(2, longest))
+        if "key" in fns and fns["key"].get("kind") == "table" and longest >= 2 and draw(st.integers(0, 6)) == 0:
+            # every key is the same unorderable value (None) and there are more items than n: the first late item
+            # has to be compared with the worst kept one, which heapq does with "<" (TypeError)
+            fns["key"]["table"] = [["n"]]
+            params["n"] = draw(st.integers(1, longest - 1))
     if v:
         params["v"] = v
 
@@ -323,9 +333,11 @@ def base_case(draw, name, max_len=8, max_src=4, steps="full", min_len=0, min_src
         cands = [s_ for s_ in srcs if s_.get("alias") is None and s_["items"]]
         if cands:
             s_ = cands[draw(st.integers(0, len(cands) - 1))]
-            s_["items"].insert(draw(st.integers(1, len(s_["items"]))), ["same"])
-            total += 1
-            longest = max(longest, len(s_["items"]))
+            pos = draw(st.integers(1, len(s_["items"])))
+            if not (name in ("nlargest", "nsmallest") and s_["items"][pos - 1][0] == "c"):  # (one complex at most)
+                s_["items"].insert(pos, ["same"])
+                total += 1
+                longest = max(longest, len(s_["items"]))
     # consumer plan
     if tool.kind == "agg":
         plan = []
